@@ -37,6 +37,12 @@ CLAIMED = {
  "C14": ("runtime post-condition monitor on the outermost to_code_data call; reference enumeration = recursive co_consts walk with an independent decode of each child",
          "list(cd) and list(cd.all_code_data()) are compared (count, self first, multiset equality by ==) with an independent recursive walk of co_consts; workloads emphasise dead nested defs/classes/lambdas that stay in co_consts unreferenced and constants loaded twice.",
          "Order beyond 'self first' is not judged.", "5/C14"),
+ "C15": ("offline checker over recorded logs: producer workers (3.7-3.10) record documents and their own normal forms, consumer workers on every interpreter present (3.7-3.13) load, re-serialize, normalize and hash them; the orchestrator joins by (producer, id) and compares canonical dumps",
+         "Every recorded document is consumed under all seven interpreters, including 3.11-3.13 hosts that cannot build the code object: from_json_data and hash() must succeed, to_json_data must reproduce the recorded document and normalize().to_json_data() must equal the producer's own normal form (frozenset element order normalised).",
+         "Consumers 3.11+ exercise only the JSON half of the API; documents come from decoded W1/W3/W4/W9 data.", "5/C15"),
+ "C16": ("offline parse of the real CLI's stdout and exit status (one subprocess per invocation under each of 3.7-3.10, plain-print fallback) compared with the in-process API result for the same program",
+         "Invocation matrix: the 0-source and every 2/3/4-source combination (incl. falsy-but-present sources) must exit 2 with empty stdout; every single source (file, -c, -e, -m; incl. the empty program) x seeded subsets of {--json, --no-normalize, --dis, --dis-after, --source} must exit 0, print repr(api result) (normalized unless --no-normalize), a JSON document that loads back to it, the program text, dis of the compiled program, dis of api_result.to_code(), and --dis-after must show the same instructions as --dis for every code object present in both.",
+         "Textual comparison under the same PYTHONHASHSEED; eval() of the printed line only excuses; unparseable output is inconclusive.", "5/C16"),
 }
 checks = []
 for pid in sorted(CLAIMED):
